@@ -50,7 +50,7 @@ fn head_end_h2(b: &[u8], preface: bool) -> usize {
 pub fn gen_exchange(r: &mut Rng, id: u64) -> Exchange {
     let h2 = r.chance(1, 4);
     let (req, res) = if h2 {
-        scenario::simple_h2(r, id, false)
+        if r.chance(1, 2) { scenario::rich_h2(r, id, false) } else { scenario::simple_h2(r, id, false) }
     } else {
         (scenario::http1_request(r, id), scenario::http1_response(r, id))
     };
